@@ -94,6 +94,9 @@ Definition f64_integral (f : f64) : bool :=
   | _ => false
   end.
 
+Definition no_minus (s : string) : bool :=
+  match s with String c _ => negb (Ascii.eqb c "-") | EmptyString => true end.
+
 Record Laws (L : GoLib) : Prop := mkLaws {
   (* ---- Unicode tables ---- *)
   (* ASCII letters start identifiers; ASCII letters, digits and '_' continue them *)
@@ -120,6 +123,8 @@ Record Laws (L : GoLib) : Prop := mkLaws {
       parse_int0 L (str_of_bytes l) = if dec_value l <=? max_int64 then Some (dec_value l) else None;
   (* ParseInt never returns a value outside int64 *)
   parse_int0_range : forall s z, parse_int0 L s = Some z -> in_int64 z = true;
+  (* ... nor a negative value for a text without a leading minus sign *)
+  parse_int0_nonneg : forall s z, parse_int0 L s = Some z -> no_minus s = true -> 0 <= z;
   (* Atoi agrees with ParseInt on canonical decimal text, clamping on overflow *)
   atoi_dec : forall l, canon_nat_text l = true ->
       atoi_clamp L (str_of_bytes l) = Z.min (dec_value l) max_int64;
